@@ -38,7 +38,7 @@ PhaseDone == phase.op = "none" \/ (phase.count = 0 /\ cnt = phase.after)
 TraceCtrPhase ==
   /\ IsEv("CtrPhase") /\ PhaseDone /\ Ev.op \in TraceKinds
   /\ cnt' = Ev.before /\ left' = [t \in Threads |-> Ev.ops] /\ cur' = [t \in Threads |-> NoCur]
-  /\ kind' = [t \in Threads |-> "none"] /\ incs' = 0 /\ decs' = 0 /\ rets' = {}
+  /\ kind' = [t \in Threads |-> "none"] /\ incs' = Ev.before /\ decs' = 0 /\ rets' = {}
   /\ phase' = [op |-> Ev.op, n |-> Ev.n, after |-> Ev.after, count |-> Ev.n * Ev.ops]
   /\ l' = l + 1 /\ UNCHANGED v1
 OpBind(r) == /\ r /\ l' = l + 1 /\ phase' = [phase EXCEPT !.count = @ - 1] /\ UNCHANGED vars
